@@ -99,9 +99,10 @@ theorem parts_valid (c : EncCfg) (fs : List Bytes) (hf : ValidFrame fs) :
 /-- `Encode` accepts every valid group -/
 theorem encode_valid (e : Enc) (fs : List Bytes) (hf : ValidFrame fs) :
     encode e fs = ({ e with seq := e.seq + UInt16.ofNat (pkts e fs).length }, some (pkts e fs)) := by
+  have h := writeAll_ok (ops e.cfg) inc (batches (ops e.cfg).fits fs []) 0 e.seq
+    (fun b hb => sampleSum_valid b (parts_valid e.cfg fs hf b hb).2)
   unfold encode
-  rw [batchLoop_eq, writeAll_ok (ops e.cfg) inc _ _ _
-    (fun b hb => sampleSum_valid b (parts_valid e.cfg fs hf b hb).2)]
+  rw [batchLoop_eq, h]
   rfl
 
 /-- what is known of every batch: a single frame, or an aggregate within the limit -/
@@ -270,7 +271,9 @@ theorem c08_inv_decode (d : Dec) (p : Pkt) (hi : Inv d) : Inv (decode d p).1 := 
     · rw [h]
       refine ⟨by simp [Dec.reset], ?_, ?_⟩
       · intro hz; simp only at hz; omega
-      · intro _; simp only; show _ ∧ _ ≤ ((1729 : Nat) : Int); omega
+      · intro _
+        have hb2' : fl ≤ 1729 := hb2
+        simp only; show _ ∧ _ ≤ ((1729 : Nat) : Int); omega
   split
   · split
     · exact ⟨h1, h2, h3⟩
@@ -330,7 +333,6 @@ theorem c08_out_le (d : Dec) (p : Pkt) (fs : List Bytes) (hi : Inv d)
     have := (h3 hz).2
     show _ ≤ 1729
     have h2 : (d.size : Int) + d.expected ≤ ((1729 : Nat) : Int) := this
-    simp only at hneg hpos
     omega
 
 /-- **C08 totality**: the frame-splitting loop never runs out of fuel — with any fuel above the
@@ -338,5 +340,333 @@ buffer length the result is the same (every iteration consumes at least 48 bytes
 theorem c08_split_total (d : Dec) (f1 f2 : Nat) (buf : Bytes) (fr : List Bytes)
     (h1 : buf.length < f1) (h2 : buf.length < f2) : splitFrames d f1 buf fr = splitFrames d f2 buf fr :=
   splitFrames_fuel d f1 f2 buf fr h1 h2
+
+/-! ## C03 — decoding the encoder's packets returns the group (grouping form) -/
+
+theorem len4 (n : Nat) (h : 0 < n) : ¬ (n + 1 + 1 + 1 + 1 < 5) := by omega
+
+/-- `Decode` on a packet with offset 0 -/
+theorem decode_off0 (d : Dec) (p : Pkt) (body : Bytes) (h : p.payload = 0 :: 0 :: 0 :: 0 :: body)
+    (hb : 0 < body.length) :
+    decode d p = splitFrames { d.reset with first := true } (body.length + 1) body [] := by
+  simp [decode, h, len4 _ hb]
+
+/-- `Decode` on a continuation whose offset is the number of bytes held -/
+theorem decode_cont (d : Dec) (p : Pkt) (hi lo : UInt8) (body : Bytes) (h : p.payload = 0 :: 0 :: hi :: lo :: body)
+    (hb : 0 < body.length) (hoff : hi.toNat * 256 + lo.toNat = d.size) (hz : d.size ≠ 0)
+    (hnn : ¬ d.expected - body.length < 0) :
+    decode d p =
+      if d.expected - body.length > 0 then
+        ({ d with fragments := d.fragments ++ [body], size := d.size + body.length,
+                  expected := d.expected - body.length }, .more)
+      else
+        ({ d with fragments := [], size := 0, expected := d.expected - body.length },
+         .ok [joinFragments (d.fragments ++ [body]) (d.size + body.length)]) := by
+  have h0 : ¬ hi.toNat * 256 + lo.toNat = 0 := by omega
+  simp only [gt_iff_lt, Int.sub_pos] at hnn ⊢
+  simp [decode, h, len4 _ hb, hoff, h0, hz, hnn, Dec.reset]
+
+/-- the first fragment of a frame: stored, "more packets needed" -/
+theorem splitFrames_first (d : Dec) (fuel : Nat) (buf : Bytes) (hd : Hdr) (hp : parseHeader buf = some hd)
+    (hlt : buf.length < hd.frameLen) :
+    splitFrames d (fuel + 1) buf [] =
+      ({ d with fragments := d.fragments ++ [buf], size := buf.length,
+                expected := (hd.frameLen : Int) - buf.length }, .more) := by
+  have : ¬ buf.length ≥ hd.frameLen := by omega
+  simp [splitFrames, hp, this]
+
+/-- the following fragments of a frame, fed to a decoder that holds the earlier ones -/
+theorem run_rest (c : EncCfg) (ts : UInt32) (avail : Nat) (hav : 0 < avail) (k : Nat) (sq : UInt16)
+    (pos : Nat) (rest : Bytes) (d : Dec) (hsz : d.size = totalLen d.fragments) (hpos : d.size = pos)
+    (hp0 : pos ≠ 0) (hp16 : pos + rest.length < 65536) (hexp : d.expected = rest.length)
+    (hlo : k * avail < rest.length) :
+    ∃ d', runDec d (emitFrag c ts avail (k + 1) sq pos rest)
+        = (d', List.replicate k .more ++ [.ok [d.fragments.flatten ++ rest]]) ∧ Clean d' := by
+  induction k generalizing sq pos rest d with
+  | zero =>
+    have hr : 0 < rest.length := by omega
+    have hd := decode_cont d { pt := payloadType, seq := sq, ts := ts, ssrc := c.ssrc, marker := true,
+                               payload := [0, 0] ++ be16 pos ++ rest }
+      _ _ rest rfl hr (by rw [hpos]; exact be16_read pos (by omega)) (by omega) (by rw [hexp]; omega)
+    have hng : ¬ d.expected - (rest.length : Int) > 0 := by rw [hexp]; omega
+    simp only [hng, ↓reduceIte] at hd
+    refine ⟨{ d with fragments := [], size := 0, expected := d.expected - rest.length }, ?_, ⟨rfl, rfl⟩⟩
+    simp only [emitFrag, runDec, runDecGen, hd, List.replicate_zero, List.nil_append]
+    have e : d.size + rest.length = totalLen (d.fragments ++ [rest]) := by simp [hsz]
+    rw [e, joinFragments_exact]
+    simp
+  | succ k ih =>
+    have hmul : (k + 1) * avail = k * avail + avail := Nat.succ_mul k avail
+    have hlen : avail < rest.length := by
+      have : 0 ≤ k * avail := Nat.zero_le _
+      omega
+    have htake : (rest.take avail).length = avail := by simp [List.length_take]; omega
+    have hd := decode_cont d { pt := payloadType, seq := sq, ts := ts, ssrc := c.ssrc, marker := true,
+                               payload := [0, 0] ++ be16 pos ++ rest.take avail }
+      _ _ (rest.take avail) rfl (by omega) (by rw [hpos]; exact be16_read pos (by omega)) (by omega)
+      (by rw [hexp, htake]; omega)
+    have hg : d.expected - ((rest.take avail).length : Int) > 0 := by rw [hexp, htake]; omega
+    simp only [hg, ↓reduceIte] at hd
+    obtain ⟨d', hrun, hclean⟩ := ih (sq + 1) (pos + (rest.take avail).length) (rest.drop avail)
+      { d with fragments := d.fragments ++ [rest.take avail], size := d.size + (rest.take avail).length,
+               expected := d.expected - (rest.take avail).length }
+      (by simp [hsz]) (by simp only [hpos]) (by omega)
+      (by simp only [htake, List.length_drop]; omega)
+      (by simp only [hexp, htake, List.length_drop]; omega)
+      (by simp only [List.length_drop]; omega)
+    refine ⟨d', ?_, hclean⟩
+    simp only [emitFrag, runDec, runDecGen, hd] at hrun ⊢
+    rw [hrun]
+    simp [List.replicate_succ, List.append_assoc]
+
+theorem be16_zero : be16 0 = [0, 0] := by decide
+
+/-- one batch, from ANY decoder state: "more" for every fragment but the last, then the batch -/
+theorem run_batch (c : EncCfg) (hc : ValidCfg c) (b : List Bytes) (hne : b ≠ [])
+    (hv : ∀ f ∈ b, ValidUnit f) (ts : UInt32) (sq : UInt16) (d : Dec) :
+    ∃ d' n, runDec d (writeBatch c b ts sq) = (d', List.replicate n .more ++ [.ok b]) ∧ Clean d' := by
+  unfold ValidCfg at hc
+  have hflat : 0 < b.flatten.length := by
+    cases b with
+    | nil => exact absurd rfl hne
+    | cons f rest =>
+      have := validUnit_len f (hv f (by simp))
+      simp only [List.flatten_cons, List.length_append]; omega
+  have agg : ∃ d' n, runDec d (writeAggregated c b ts sq) = (d', List.replicate n .more ++ [.ok b]) ∧ Clean d' := by
+    refine ⟨{ d.reset with first := true }, 0, ?_, ⟨rfl, rfl⟩⟩
+    have hd := decode_off0 d { pt := payloadType, seq := sq, ts := ts, ssrc := c.ssrc, marker := true,
+                               payload := [0, 0, 0, 0] ++ b.flatten } b.flatten rfl hflat
+    simp only [writeAggregated, runDec, runDecGen, hd]
+    rw [splitFrames_valid _ b [] _ hne (fun f hf => validUnit_hdr f (hv f hf)) (by omega)]
+    simp
+  unfold writeBatch
+  split
+  · rename_i f
+    split
+    · exact agg
+    · rename_i hge
+      obtain ⟨hdr, hvf, hfl⟩ := validUnit_hdr f (hv f (by simp))
+      have hfb := parseHeader_bounds f hdr hvf
+      have hfb2 : f.length ≤ 1729 := by have := hfb.2.2; rw [hfl] at this; exact this
+      simp only [lenAggregated, totalLen_singleton] at hge
+      have hav : c.max - CodecAudio.mpeg1audioFragHeaderBytes = c.max - 4 := rfl
+      simp only [writeFragmented, hav]
+      have hpos : 0 < c.max - 4 := by omega
+      have hlow := ceilDiv_lower f.length (c.max - 4) hpos (by omega)
+      have hcp := ceilDiv_pos f.length (c.max - 4) hpos (by omega)
+      rw [← packetCount_eq] at hlow hcp
+      obtain ⟨k, hk⟩ := Nat.exists_eq_succ_of_ne_zero (Nat.pos_iff_ne_zero.mp hcp)
+      rw [hk] at hlow ⊢
+      have hlow : k * (c.max - 4) < f.length := hlow
+      cases k with
+      | zero =>
+        -- the frame is exactly as long as one fragment: a single packet with offset 0
+        refine ⟨{ d.reset with first := true }, 0, ?_, ⟨rfl, rfl⟩⟩
+        have hd := decode_off0 d { pt := payloadType, seq := sq, ts := ts, ssrc := c.ssrc, marker := true,
+                                   payload := [0, 0] ++ be16 0 ++ f } f (by rw [be16_zero]; rfl) (by omega)
+        simp only [emitFrag, runDec, runDecGen, hd]
+        have := splitFrames_valid { d.reset with first := true } [f] [] (f.length + 1) (by simp)
+          (fun x hx => by simp at hx; subst hx; exact ⟨hdr, hvf, hfl⟩) (by simp)
+        simp only [List.flatten_cons, List.flatten_nil, List.append_nil, List.nil_append] at this
+        rw [this]
+        simp
+      | succ k =>
+        have hmul : (k + 1) * (c.max - 4) = k * (c.max - 4) + (c.max - 4) := Nat.succ_mul k _
+        have hlen : c.max - 4 < f.length := by
+          have : 0 ≤ k * (c.max - 4) := Nat.zero_le _
+          omega
+        have htake : (f.take (c.max - 4)).length = c.max - 4 := by simp [List.length_take]; omega
+        have hd := decode_off0 d { pt := payloadType, seq := sq, ts := ts, ssrc := c.ssrc, marker := true,
+                                   payload := [0, 0] ++ be16 0 ++ f.take (c.max - 4) } (f.take (c.max - 4))
+          (by rw [be16_zero]; rfl) (by omega)
+        have hfirst := splitFrames_first { d.reset with first := true } (f.take (c.max - 4)).length
+          (f.take (c.max - 4)) hdr (by rw [parseHeader_take f _ hfb.1 (by omega)]; exact hvf)
+          (by rw [htake, hfl]; exact hlen)
+        obtain ⟨d', hrun, hclean⟩ := run_rest c ts (c.max - 4) hpos k (sq + 1)
+          (0 + (f.take (c.max - 4)).length) (f.drop (c.max - 4))
+          { first := true, fragments := [f.take (c.max - 4)], size := (f.take (c.max - 4)).length,
+            expected := (hdr.frameLen : Int) - (f.take (c.max - 4)).length }
+          (by simp) (by simp) (by simp only [htake]; omega)
+          (by simp only [htake, List.length_drop]; omega)
+          (by simp only [htake, List.length_drop, hfl]; omega)
+          (by simp only [List.length_drop]; omega)
+        refine ⟨d', k + 1, ?_, hclean⟩
+        simp only [emitFrag, runDec, runDecGen, hd, hfirst] at hrun ⊢
+        simp only [Dec.reset, List.nil_append] at hrun ⊢
+        rw [hrun]
+        simp [List.replicate_succ]
+  · exact agg
+
+/-- **C03 round trip, grouping form**: for every valid configuration, every valid group and ANY
+decoder state, `Encode` succeeds; the decoder answers every packet with a frame or "more packets
+needed"; the returned frames are exactly the batches of the group (the pieces the encoder split it
+into), so their concatenation is the group — same frames, same bytes, same order; and the decoder
+is clean afterwards. -/
+theorem c03_roundtrip_grouping (e : Enc) (fs : List Bytes) (d : Dec)
+    (hc : ValidCfg e.cfg) (hf : ValidFrame fs) :
+    (encode e fs).2 = some (pkts e fs) ∧
+    ∃ d' outs, runDec d (pkts e fs) = (d', outs) ∧ Clean d' ∧ OnlyOkMore outs ∧
+      okFrames outs = parts e.cfg fs ∧ (okFrames outs).flatten = fs := by
+  refine ⟨by rw [encode_valid e fs hf], ?_⟩
+  obtain ⟨d', outs, h1, hclean, h3, h4⟩ := run_writeAllOk decode
+    (fun d0 => d0 = d ∨ Clean d0) (writeBatch e.cfg) inc
+    (parts e.cfg fs) 0 e.seq d (Or.inl rfl) (fun b hb ts sq d0 _ => by
+      obtain ⟨hne, hv⟩ := parts_valid e.cfg fs hf b hb
+      obtain ⟨d1, n, hr, hcl⟩ := run_batch e.cfg hc b hne hv ts sq d0
+      exact ⟨d1, n, hr, Or.inr hcl⟩)
+  have hcl : Clean d' := by
+    rcases hclean with h | h
+    · -- at least one batch was decoded, so the state is the clean one it left
+      have hne := batches_ne_nil (ops e.cfg).fits fs []
+      cases hp : parts e.cfg fs with
+      | nil => exact absurd hp hne
+      | cons b bs =>
+        obtain ⟨hne', hv'⟩ := parts_valid e.cfg fs hf b (by rw [hp]; simp)
+        obtain ⟨d1, n, hr, hc1⟩ := run_batch e.cfg hc b hne' hv' 0 e.seq d
+        obtain ⟨d2, outs2, h21, h22, _, _⟩ := run_writeAllOk decode Clean (writeBatch e.cfg) inc bs
+          (0 + inc b) (e.seq + UInt16.ofNat (writeBatch e.cfg b 0 e.seq).length) d1 hc1
+          (fun b' hb' ts sq d0 _ => by
+            obtain ⟨hne'', hv''⟩ := parts_valid e.cfg fs hf b' (by rw [hp]; simp [hb'])
+            exact run_batch e.cfg hc b' hne'' hv'' ts sq d0)
+        have : runDec d (pkts e fs) = _ := h1
+        unfold pkts at this
+        rw [hp, writeAllOk, runDec, runDecGen_append] at this
+        rw [show runDecGen decode = runDec from rfl, hr] at this
+        simp only at this
+        rw [show runDec = runDecGen decode from rfl, h21] at this
+        have := congrArg Prod.fst this
+        simp only at this
+        rw [← this]; exact h22
+    · exact h
+  exact ⟨d', outs, h1, hcl, h4, h3, by rw [h3, parts_flatten]⟩
+
+/-- the group fits one packet: header and frames within the limit -/
+def Fits (c : EncCfg) (fs : List Bytes) : Prop := lenAggregated fs none ≤ c.max
+
+theorem totalLen_prefix (pre : List Bytes) (au : Bytes) (post : List Bytes) :
+    totalLen (pre ++ au :: post) = totalLen pre + au.length + totalLen post := by
+  simp [totalLen]; omega
+
+/-- a group that fits is sent as ONE packet, and that packet returns the whole group -/
+theorem c03_fits_single (e : Enc) (fs : List Bytes) (d : Dec) (hc : ValidCfg e.cfg) (hf : ValidFrame fs)
+    (hfit : Fits e.cfg fs) :
+    ∃ p d', pkts e fs = [p] ∧ p.ts = 0 ∧ runDec d [p] = (d', [.ok fs]) ∧ Clean d' := by
+  have hparts : parts e.cfg fs = [fs] := by
+    unfold parts
+    have := batches_all_fit (ops e.cfg).fits fs [] (by
+      intro pre au post hfs
+      have hl : lenAggregated fs none = 4 + (totalLen pre + au.length + totalLen post) := by
+        rw [hfs]; unfold lenAggregated; rw [totalLen_prefix]; simp only [Nat.add_zero]
+      show decide (lenAggregated ([] ++ pre) (some au) ≤ e.cfg.max) = true
+      have hg : lenAggregated ([] ++ pre) (some au) = 4 + totalLen pre + au.length := by
+        simp only [List.nil_append, lenAggregated]
+      unfold Fits at hfit
+      rw [hg, decide_eq_true_eq]; omega)
+    simpa using this
+  obtain ⟨d', n, hr, hcl⟩ := run_batch e.cfg hc fs hf.1 hf.2 0 e.seq d
+  have hp : pkts e fs = writeBatch e.cfg fs 0 e.seq := by
+    unfold pkts; rw [hparts]; simp [writeAllOk]
+  -- one packet: aggregated, or a "fragmented" frame of exactly `max - 4` bytes
+  have hone : ∃ p, writeBatch e.cfg fs 0 e.seq = [p] ∧ p.ts = 0 := by
+    unfold writeBatch
+    split
+    · rename_i f
+      split
+      · exact ⟨_, rfl, rfl⟩
+      · rename_i hge
+        unfold Fits at hfit
+        unfold ValidCfg at hc
+        simp only [lenAggregated, totalLen_singleton] at hge hfit
+        have hlen := validUnit_len f (hf.2 f (by simp))
+        have hav : e.cfg.max - CodecAudio.mpeg1audioFragHeaderBytes = f.length := by
+          show e.cfg.max - 4 = f.length; omega
+        have hpc : packetCount f.length f.length = 1 := by
+          unfold packetCount; rw [Nat.div_self (by omega), Nat.mod_self]; simp
+        simp only [writeFragmented, hav, hpc]
+        exact ⟨_, rfl, rfl⟩
+    · exact ⟨_, rfl, rfl⟩
+  obtain ⟨p, hp1, hp2⟩ := hone
+  refine ⟨p, d', by rw [hp, hp1], hp2, ?_, hcl⟩
+  rw [hp1] at hr
+  have hlen := congrArg (fun x => x.2.length) hr
+  simp [runDec, runDecGen] at hlen
+  subst hlen
+  simpa using hr
+
+/-- **timestamps**: the packets of piece `i` (batch `i`) all carry the relative timestamp that is
+the sample count (384 / 576 / 1152 per frame, from the frame headers) of the batches before it. -/
+theorem c03_timestamps (e : Enc) (fs : List Bytes) :
+    (piecePkts (writeBatch e.cfg) inc (parts e.cfg fs) 0 e.seq).flatten = pkts e fs ∧
+    AllTs (piecePkts (writeBatch e.cfg) inc (parts e.cfg fs) 0 e.seq) (pieceTs inc (parts e.cfg fs) 0) :=
+  ⟨piecePkts_flatten _ _ _ _ _, piecePkts_ts _ _ _ _ _ (fun b _ ts sq p hp => (writeBatch_hdr e.cfg b ts sq p hp).2.2.1)⟩
+
+def encodeEach (e : Enc) : List (List Bytes) → List (List Pkt)
+  | [] => []
+  | f :: fs => pkts e f :: encodeEach (encode e f).1 fs
+
+def runFrames (d : Dec) : List (List Pkt) → List (List (DecRes (List Bytes)))
+  | [] => []
+  | ps :: rest => (runDec d ps).2 :: runFrames (runDec d ps).1 rest
+
+/-- **C03, consecutive groups** through the same encoder / decoder pair, from any decoder state. -/
+theorem c03_roundtrip_many (e : Enc) (gs : List (List Bytes)) (d : Dec) (hc : ValidCfg e.cfg)
+    (hf : ∀ g ∈ gs, ValidFrame g) :
+    (runFrames d (encodeEach e gs)).map (fun outs => (okFrames outs).flatten) = gs ∧
+    ∀ outs ∈ runFrames d (encodeEach e gs), OnlyOkMore outs := by
+  induction gs generalizing e d with
+  | nil => exact ⟨rfl, by simp [runFrames, encodeEach]⟩
+  | cons g gs ih =>
+    obtain ⟨_, d', outs, h1, _, h3, _, h5⟩ := c03_roundtrip_grouping e g d hc (hf g (by simp))
+    obtain ⟨ih1, ih2⟩ := ih (encode e g).1 d' (by rw [encode_valid e g (hf g (by simp))]; exact hc)
+      (fun x hx => hf x (by simp [hx]))
+    simp only [encodeEach, runFrames, h1, List.map_cons]
+    refine ⟨by rw [h5, ih1], ?_⟩
+    intro o ho
+    simp only [List.mem_cons] at ho
+    rcases ho with ho | ho
+    · subst ho; exact h3
+    · exact ih2 o ho
+
+/-! ## C07 — resynchronisation -/
+
+/-- **C07 flush**: from ANY state, the packets of one intact valid group, in order, leave the
+decoder clean (every piece starts with an offset-0 packet, which resets the fragment state). -/
+theorem c07_flush (e : Enc) (fs : List Bytes) (d : Dec) (hc : ValidCfg e.cfg) (hf : ValidFrame fs) :
+    Clean (runDec d (pkts e fs)).1 := by
+  obtain ⟨_, d', outs, h1, h2, _⟩ := c03_roundtrip_grouping e fs d hc hf
+  rw [h1]; exact h2
+
+/-- **C07 resynchronisation**: after ANY packet history `h`, an intact valid group `g` is returned
+exactly — nothing but "more packets needed" and the frames of `g`, once, in order.  For this format
+the predecessor need not even be intact. -/
+theorem c07_resync (h : List Pkt) (e : Enc) (g : List Bytes) (hc : ValidCfg e.cfg) (hg : ValidFrame g) :
+    ∃ d' outs, runDec (runDec {} h).1 (pkts e g) = (d', outs) ∧ Clean d' ∧ OnlyOkMore outs ∧
+      (okFrames outs).flatten = g := by
+  obtain ⟨_, d', outs, h1, h2, h3, _, h5⟩ := c03_roundtrip_grouping e g (runDec {} h).1 hc hg
+  exact ⟨d', outs, h1, h2, h3, h5⟩
+
+/-! ## non-vacuity: the hypotheses are satisfiable by non-trivial values -/
+
+/-- the smallest frame: MPEG-2 layer 3, 8 kbit/s at 24 kHz → 144·8000/24000 = 48 bytes, 576 samples -/
+def exUnit : Bytes := [0xFF, 0xF3, 0x14, 0xC0] ++ List.replicate 44 7
+def exEnc (max : Nat) : Enc := { cfg := { pt := 14, ssrc := 7, max := max }, seq := 65535 }
+
+set_option maxRecDepth 8000 in
+example : ValidCfg (exEnc 30).cfg ∧ ValidFrame [exUnit, exUnit, exUnit] := by decide
+-- limit 30: the frame is fragmented (26 + 22 bytes, offsets 0 and 26) across a sequence-number wrap
+set_option maxRecDepth 8000 in
+example : (pkts (exEnc 30) [exUnit]).map (fun p => (p.seq, p.marker, p.ts, p.payload.take 4, p.payload.length)) =
+    [(65535, true, 0, [0, 0, 0, 0], 30), (0, true, 0, [0, 0, 0, 26], 26)] := by decide
+-- limit 100: two frames aggregate, the third goes into a second packet 1152 samples later
+set_option maxRecDepth 8000 in
+example : (pkts (exEnc 100) [exUnit, exUnit, exUnit]).map (fun p => (p.seq, p.ts, p.payload.length)) =
+    [(65535, 0, 100), (0, 1152, 52)] := by decide
+set_option maxRecDepth 8000 in
+example : (runDec {} (pkts (exEnc 30) [exUnit])).2 = [.more, .ok [exUnit]] := by decide
+set_option maxRecDepth 8000 in
+example : Fits (exEnc 100).cfg [exUnit, exUnit] := by unfold Fits; decide
+/-- a dirty state (mid-frame) satisfies the invariant -/
+example : Inv { first := true, fragments := [[1, 2], [3]], size := 3, expected := 45 } :=
+  ⟨by decide, by decide, by decide⟩
 
 end Rtsp.Codec.Mpeg1Audio
